@@ -207,6 +207,8 @@ class GenCfg:
     mixing_prob: float = 0.25
     leaf_sum_prob: float = 0.3
     twohead_prob: float = 0.12  # two sum layers over the same product layers
+    shuffle_inputs_prob: float = 0.3  # product layers list their inputs in a random order
+    leaf_mix_prob: float = 0.4  # a leaf sum layer mixes several input layers of its variable
     skip_sum_prob: float = 0.2
     defect: str = "none"  # none | nonsmooth | nondecomp
     weight_kinds: tuple | None = None
@@ -356,9 +358,11 @@ class CircuitBuilder:
             (v,) = reg.scope
             if self._decide(reg.scope, "leaf_sum", lambda: rng.random() < cfg.leaf_sum_prob):
                 k0 = rng.randint(1, cfg.max_units)
-                il = self.input_layer(v, k0)
+                # a mixture of 1..max_reps input layers of the same variable
+                a = rng.randint(1, cfg.max_reps) if rng.random() < cfg.leaf_mix_prob else 1
+                ils = [self.input_layer(v, k0) for _ in range(a)]
                 return self._add(
-                    L.SumLayer(k0, k, arity=1, weight=self._weight((k, k0), 1, k0)), [il]
+                    L.SumLayer(k0, k, arity=a, weight=self._weight((k, a * k0), a, k0)), ils
                 )
             return self.input_layer(v, k)
         kind = self._decide(reg.scope, "prod_kind", lambda: rng.choice(cfg.prod_kinds))
@@ -378,6 +382,8 @@ class CircuitBuilder:
                 continue
             for _ in range(reps):
                 children = [self.get(c, kc) for c in part]
+                if len(children) >= 2 and rng.random() < cfg.shuffle_inputs_prob:
+                    rng.shuffle(children)  # the order in which a product lists its inputs is arbitrary
                 if cfg.const_factor_prob and rng.random() < cfg.const_factor_prob:
                     children.append(self.const_layer(kc))
                     self.notes.append("const-factor")
